@@ -27,7 +27,15 @@ def main() -> int:
             out.flush()
             wd = Path(tempfile.mkdtemp(prefix="case_", dir=workdir))
             try:
+                from vmon import scenario as _scn
+
+                _scn.NAN_SEEN.clear()
                 result = mod.run_case(it["case"], wd)
+                if _scn.NAN_SEEN and not result.get("violations") and not result.get("harness_error") and not getattr(mod, "NAN_IN_OUTPUT_EXPECTED", False):
+                    # comparisons of the form |a - b| > tol are blind to a missing number: no scenario of the checks writes one
+                    result["violations"] = [dict(what="a number read from an output file is not finite: " + "; ".join(_scn.NAN_SEEN[:3]), detail=dict(all=_scn.NAN_SEEN[:20]))]
+                if isinstance(result.get("counters"), dict):
+                    result["counters"]["non_finite_output_values_seen"] = len(_scn.NAN_SEEN)
             except HarnessError as e:
                 result = dict(harness_error=str(e), violations=[], situations={}, counters={})
             except (Exception, SystemExit):  # noqa: BLE001  (a SystemExit escaping run_case is a harness bug, not a verdict)
